@@ -89,11 +89,15 @@ static void do_pfor(const char * form, long first, long last, long step, long gr
 /* ---------------- task_group ---------------- */
 
 struct FnBase { volatile long * done; int id; };
+static volatile long tg_ran[4096];     /* how often the task with a given id ran in the current round */
 template<int PAD>
 struct Fn : FnBase {
   char pad[PAD];
-  void operator()() {
+  void operator()() const {
     maybe_yield(id);
+    /* the closure is read again AFTER the task may have been suspended (it must be the task's own copy) */
+    int me = id;
+    if (me >= 0 && me < 4096) __sync_fetch_and_add(&tg_ran[me], 1);
     __sync_fetch_and_add(done, 1);
   }
 };
@@ -166,12 +170,15 @@ static void do_tg(char * rest) {
   }
   for (size_t r = 0; r < rounds.size(); r++) {
     volatile long done = 0;
+    for (size_t i = 0; i < rounds[r].size() && i < 4096; i++) tg_ran[i] = 0;
     for (size_t i = 0; i < rounds[r].size(); i++)
       if (run_size(tg, rounds[r][i], &done, (int)i)) { printf("bad-size\n"); fflush(stdout); return; }
     if (r) printf(" || ");
     dump_lists(tg, true);
     tg.wait();
     long d = done;                        /* tasks completed when wait returned */
+    for (size_t i = 0; i < rounds[r].size() && i < 4096; i++)
+      if (tg_ran[i] != 1) { printf(" RAN id=%zu times=%ld", i, tg_ran[i]); break; }
     printf(" joined=%ld after=", d);
     dump_lists(tg, false);
   }
